@@ -447,7 +447,7 @@ pub fn exch_step_1b(
         r = r.point_mul(&rb);
 
         // B4: check RA on curve; G1 = e(RA, deB), G2 = e(Ppube, P2) ^ rB, G3 = G1 ^ rB
-        if !ra.is_on_curve() {
+        if ra.is_zero() || !ra.is_on_curve() {
             return Err(Sm9Error::InvalidPoint);
         }
 
@@ -502,7 +502,7 @@ pub fn exch_step_2a(
 ) -> Sm9Result<Vec<u8>> {
     let mut sk = vec![];
     loop {
-        if !rb.is_on_curve() {
+        if rb.is_zero() || !rb.is_on_curve() {
             return Err(Sm9Error::InvalidPoint);
         }
 
